@@ -133,7 +133,7 @@ BOUNDED = {
         statement="3.0 nullable vs 3.1 type list / null member, single-member allOf/oneOf/anyOf wrapper vs bare $ref, JSON vs "
                   "YAML, path-item parameter vs the same parameter on each operation: byte-identical trees; a default next "
                   "to a wrapped reference is kept",
-        bound="14 document pairs"),
+        bound="15 document pairs"),
 }
 
 
